@@ -23,7 +23,7 @@ WORLDS = {
     "cg": ("C12", 24000, 1600000, [("default", {}, 1.0)]),
     "pg": ("C13", 4800, 300000, [("default", {}, 0.99), ("history", {}, 0.01, {"fresh_per_session": True})]),
     "lls": ("C14", 640, 40000, [("default", {}, 1.0)]),
-    "stop": ("C15", 3200, 300000, [("default", {}, 1.0)]),
+    "stop": ("C15", 9600, 600000, [("default", {}, 1.0)]),
     "rng": (
         "C18",
         480,
@@ -288,6 +288,22 @@ def main(argv=None):
     known = load_known(prop)
     open_known = {(e["invariant"], e["site"]): e for e in known if e["status"] == "open"}
     exit_code = 0
+    # every listed open finding is re-demonstrated from its committed replay, so its
+    # KNOWN-FINDING line does not depend on this run's sample happening to hit it
+    for (inv, site), e in sorted(open_known.items()):
+        key = "%s|%s" % (inv, site)
+        demo = (e.get("demonstration") or "").split(" ")[0]
+        if key in m["known_hits"] or not demo or not os.path.exists(os.path.join(HERE, demo)):
+            continue
+        try:
+            with open(os.path.join(HERE, demo)) as f:
+                rpk = json.load(f)
+            cenvk = dict([(c[0], c[1]) for c in configs]).get(rpk.get("config", "default"), {})
+            rck, resk, outk, errk = replay_file(os.path.join(HERE, demo), args.root, cenvk, known=True)
+            if ("KNOWN-HIT " + key) in outk:
+                m["known_hits"][key] = {"count": 1, "seed": rpk.get("seed", -1), "detail": "from " + demo}
+        except Exception as ex:  # noqa
+            errors.append("known-finding demonstration %s failed to run: %r" % (demo, ex))
     # known findings (interpreter continued past them)
     for key, e in sorted(m["known_hits"].items()):
         inv, site = key.split("|", 1)
